@@ -224,6 +224,7 @@ class PeerCase:
                 return
             sock.setsockopt(socket.IPPROTO_TCP, socket.TCP_NODELAY, 1)
             slog["connected"] = True
+            slog["client_addr"] = sock.getpeername()[0]
             ch = Chan(sock, slog)
             ctx = make_server_ctx(self.tlsver)     # own session cache per control connection
             st = dict(ch=ch, ctx=ctx, slog=slog, s=s, data_listener=None, active_ep=None, pending=[], dthread=None,
